@@ -123,6 +123,10 @@ type Options struct {
 	// after the initial content was written and before the session is made
 	// (stray entries next to the records)
 	FSMutate func(dir string)
+	// PreAdoptLimits: AdoptSession is first invoked with AtLeastOnceMax and
+	// ExactlyOnceMax set to this (a misconfigured restart), then with Config.
+	// Warnings of both invocations are kept; PreAdoptFatal has the first outcome.
+	PreAdoptLimits int
 }
 
 // World is one process generation of a client together with its environment.
@@ -135,11 +139,13 @@ type World struct {
 	Log    []Event
 	Script []string // canonical rendering of the generated actions
 
-	Client     *mqtt.Client
-	Warn       []error
-	Fatal      error
-	AdoptPanic string // a panic inside AdoptSession (recovered), with stack
-	storeDir   string // scratch directory of a filesystem-flavoured store
+	Client        *mqtt.Client
+	Warn          []error
+	Fatal         error
+	AdoptPanic    string // a panic inside AdoptSession (recovered), with stack
+	PreAdoptFatal error  // outcome of the invocation with PreAdoptLimits
+	PreAdoptRan   bool
+	storeDir      string // scratch directory of a filesystem-flavoured store
 	// PlainRecords: the stored values are bare packets (session made like
 	// VolatileSession does, without the sequence number and checksum trailer)
 	PlainRecords bool
@@ -303,6 +309,24 @@ func New(t TB, o Options) *World {
 		for _, kind := range o.AdoptFailNext {
 			w.Store.FailNext(kind)
 		}
+		var preWarn []error
+		if o.PreAdoptLimits > 0 {
+			func() {
+				defer func() {
+					if p := recover(); p != nil {
+						w.AdoptPanic = fmt.Sprintf("%v\n%s", p, debug.Stack())
+					}
+				}()
+				low := cfg
+				low.AtLeastOnceMax, low.ExactlyOnceMax = o.PreAdoptLimits, o.PreAdoptLimits
+				var cl *mqtt.Client
+				cl, preWarn, w.PreAdoptFatal = mqtt.AdoptSession(w.Store, &low)
+				w.PreAdoptRan = true
+				if cl != nil {
+					cl.Close() // (the limits sufficed after all)
+				}
+			}()
+		}
 		func() {
 			defer func() {
 				if p := recover(); p != nil {
@@ -312,6 +336,7 @@ func New(t TB, o Options) *World {
 			}()
 			w.Client, w.Warn, w.Fatal = mqtt.AdoptSession(w.Store, &cfg)
 		}()
+		w.Warn = append(preWarn[:len(preWarn):len(preWarn)], w.Warn...)
 		w.Store.ClearFaults()
 	} else if flavour == "volatile-plain" {
 		// as VolatileSession: the library's map without the checksum layer
